@@ -455,7 +455,8 @@ func (c *twoPhaseCommitter) buildPipelinedResolveHandler(commit bool, resolved *
 	}, nil
 }
 
-// resolveFlushedLocks resolves all locks in the given range [start, end) with the given status.
+// resolveFlushedLocks resolves all locks in the given range [start, end] with the given status. Both bounds are
+// flushed keys, so the end key itself must be covered.
 // The resolve process is running in another goroutine so this function won't block.
 func (c *twoPhaseCommitter) resolveFlushedLocks(bo *retry.Backoffer, start, end []byte, commit bool) {
 	var resolved atomic.Uint64
@@ -491,7 +492,9 @@ func (c *twoPhaseCommitter) resolveFlushedLocks(bo *retry.Backoffer, start, end 
 	runner.SetRegionsPerTask(1)
 
 	c.txn.spawnWithStorePool(func() {
-		if err = runner.RunOnRange(bo.GetCtx(), start, end); err != nil {
+		// The range task works on a half-open range: extend it just past the largest flushed key, which otherwise
+		// stays locked when it is the first key of a region.
+		if err = runner.RunOnRange(bo.GetCtx(), start, kv.NextKey(end)); err != nil {
 			logutil.Logger(bo.GetCtx()).Error("[pipelined dml] resolve flushed locks failed",
 				zap.String("txn-status", status),
 				zap.Uint64("resolved regions", resolved.Load()),
